@@ -426,6 +426,8 @@ theorem mainIter_acc {strict : Bool} {s : State} {g : G} (m : Option Msg) (h : R
   split
   · exact onNotify_acc _ _ h
   · exact onNotification_acc h
+  · exact onNotify_acc _ _ h
+  · exact onNotify_acc _ _ h
   · exact dflt
 
 /-- the stale main loop writes a ROUTE-REFRESH outside ESTABLISHED (finding F30): only the
@@ -649,6 +651,8 @@ theorem mainIter_keeps (m : Option Msg) (s : State) (hf : s.fsm = .established) 
   split
   · exact Or.inl (onNotify_ended _ _ _ (hup s hf)).pc
   · exact Or.inl (onNotification_ended _ (hup s hf)).pc
+  · exact Or.inl (onNotify_ended _ _ _ (hup s hf)).pc
+  · exact Or.inl (onNotify_ended _ _ _ (hup s hf)).pc
   · split
     · exact Or.inl (onNotify_ended _ _ _ (hup s hf)).pc
     · exact tail
